@@ -662,3 +662,231 @@ Proof.
     unfold step_ok. repeat (split; [reflexivity|]). split; [|split; [apply grows_refl|split; [exact S|split; reflexivity]]].
     apply MK; msimp; auto; [apply grows_refl|]. rewrite Hpc. exact A8.
 Qed.
+
+(* ---- the registration list stays duplicate-free: one linker per counter ---- *)
+Lemma core_list ms t ms' t' : mstep_core ms t = (ms', t') ->
+  ms_list ms' = ms_list ms \/ (m_pc t = MRLink /\ ms_list ms' = m_k t :: ms_list ms).
+Proof.
+  intros H. unfold mstep_core in H. destruct (m_pc t) eqn:Hpc.
+  - destruct (m_isadd t); injection H as <- <-; left; reflexivity.
+  - destruct (claimed ms (m_k t)); injection H as <- <-; left; reflexivity.
+  - injection H as <- <-; left; reflexivity.
+  - destruct (m_wrote t); [|destruct (claimed ms (m_k t))]; injection H as <- <-; left; reflexivity.
+  - destruct (onat_eqb _ _); injection H as <- <-; [right; auto | left; reflexivity].
+  - injection H as <- <-; left; reflexivity.
+  - injection H as <- <-; left; reflexivity.
+  - injection H as <- <-; left; reflexivity.
+  - cbv zeta in H. destruct (step_thread np0 _ _) as [s' u'].
+    destruct (_ && m_grown t); [injection H as <- <-; left; reflexivity|].
+    destruct (pc_is _ LLook2 && _); [injection H as <- <-; left; reflexivity|].
+    destruct (m_walks t); [destruct (pc_is (t_pc u') Done); [destruct (m_role t)|]|destruct (visit_ended _ _ _)];
+      injection H as <- <-; left; reflexivity.
+  - injection H as <- <-. left; reflexivity.
+  - injection H as <- <-; left; reflexivity.
+  - destruct (m_walks t); injection H as <- <-; left; reflexivity.
+  - injection H as <- <-; left; reflexivity.
+  - destruct (m_walks t) as [|w ws]; [injection H as <- <-; left; reflexivity|].
+    destruct (w_own w) as [[r c]|].
+    + destruct (step_thread np0 _ _) as [s' u']. injection H as <- <-. left; reflexivity.
+    + destruct (m_prev t); injection H as <- <-; left; reflexivity.
+  - injection H as <- <-; left; reflexivity.
+Qed.
+
+(* an adder thread: how m_wrote and the register phase evolve *)
+Lemma core_wrote_add ms t ms' t' : mstep_core ms t = (ms', t') -> CI ms t -> m_isadd t = true ->
+  (m_wrote t' = m_wrote t \/ (m_wrote t = false /\ claimed ms (m_k t) = false /\ ms_list ms' = ms_list ms)) /\
+  (reg_phase t' = true -> m_wrote t' = true -> (reg_phase t = true /\ m_wrote t = true /\ (m_pc t = MRLink -> ms_list ms' = ms_list ms)) \/ (claimed ms (m_k t) = false /\ ms_list ms' = ms_list ms)).
+Proof.
+  intros H (L & Ne & Gr & X) Ea. rewrite Ea in X. destruct X as (A1 & A2 & A3 & A4 & A5 & A6 & A7 & A8).
+  unfold mstep_core in H. unfold reg_phase. destruct (m_pc t) eqn:Hpc; try contradiction.
+  - rewrite Ea in H. injection H as <- <-. cbn. split; [auto|]. intros; discriminate.
+  - destruct A8 as (B1 & B2 & B3). destruct (claimed ms (m_k t)); injection H as <- <-; cbn; (split; [auto|]); intros; try discriminate. congruence.
+  - injection H as <- <-; cbn. split; [auto|]. intros _ Hw. left. repeat split; auto; discriminate.
+  - destruct (m_wrote t) eqn:Ew; [|destruct (claimed ms (m_k t)) eqn:Ec]; injection H as <- <-; cbn.
+    + split; [auto|]. intros _ _. left. repeat split; auto; discriminate.
+    + split; [auto|]. intros; discriminate.
+    + split; [right; auto|]. intros _ _. right. auto.
+  - destruct A8 as (B1 & B2 & B3). destruct (onat_eqb _ _); injection H as <- <-; cbn; (split; [auto|]); intros; try discriminate.
+    left. repeat split; auto.
+  - injection H as <- <-; cbn. split; [auto|]. intros; discriminate.
+  - destruct A8 as (B1 & B2 & B3). injection H as <- <-; cbn. split; [auto|]. intros _ _. left. repeat split; auto; discriminate.
+  - injection H as <- <-; cbn. split; [auto|]. intros; discriminate.
+  - cbv zeta in H. destruct (step_thread np0 _ _) as [s' u'].
+    destruct (_ && m_grown t); [injection H as <- <-; cbn; split; [auto|]; intros; discriminate|].
+    destruct (pc_is _ LLook2 && _); [injection H as <- <-; cbn; split; [destruct (m_role t); auto|]; intros; discriminate|].
+    rewrite A3 in H. destruct (m_role t); destruct (pc_is (t_pc u') Done);
+      injection H as <- <-; cbn; (split; [auto|]); rewrite ?Hpc; cbn; intros; congruence.
+  - injection H as <- <-; cbn. split; [auto|]. rewrite Hpc. cbn. intros; congruence.
+Qed.
+
+(* ---- the invariant of the whole system ---- *)
+Definition GI (st : mstate) : Prop :=
+  let '(ms, ts) := st in
+  ms_chk ms = false /\ ms_bad ms = false /\ MW ms /\ Forall (CI ms) ts /\
+  (forall j t, nth_error ts j = Some t -> m_isadd t = true -> m_wrote t = true -> reg_phase t = true ->
+     ~ In (m_k t) (ms_list ms)) /\
+  (forall i j ti tj, nth_error ts i = Some ti -> nth_error ts j = Some tj -> i <> j ->
+     m_isadd ti = true -> m_isadd tj = true -> m_wrote ti = true -> m_wrote tj = true -> m_k ti <> m_k tj).
+
+Lemma CI_wrote_claimed ms t : CI ms t -> m_isadd t = true -> m_wrote t = true -> claimed ms (m_k t) = true /\ (m_k t < nc ms)%nat.
+Proof. intros (_ & _ & _ & X) Ea Hw. rewrite Ea in X. destruct X as (A1 & _ & _ & _ & _ & _ & A7 & _). auto. Qed.
+Lemma CI_chg_wrote ms t : CI ms t -> m_isadd t = false -> m_wrote t = false /\ reg_phase t = false.
+Proof.
+  intros (_ & _ & _ & X) Ea. rewrite Ea in X. destruct X as (_ & A2 & _ & A8). split; [exact A2|].
+  unfold reg_phase. destruct (m_pc t); try reflexivity; contradiction.
+Qed.
+
+Theorem GI_step st i : GI st -> GI (mstep st i).
+Proof.
+  destruct st as [ms ts]. intros (C & B & W & F & U3 & U2). unfold mstep.
+  destruct (nth_error ts i) as [t0|] eqn:Hn; [|exact (conj C (conj B (conj W (conj F (conj U3 U2)))))].
+  pose proof (nth_error_Forall _ _ _ _ F Hn) as I0.
+  unfold mstep_thread. destruct (mstep_core ms t0) as [ms1 t1] eqn:Hc. cbn [fst snd].
+  assert (SO : step_ok ms t0 ms1 t1).
+  { destruct (m_isadd t0) eqn:Ea; [eapply core_CI_add | eapply core_CI_chg]; eauto. }
+  destruct SO as (C1 & B1 & I1 & G & S1 & E1 & E2).
+  destruct (CI_lens_focus _ _ I0) as [LO FO]. rewrite LO, FO, (CI_done_ok _ _ I1). cbn [andb negb]. rewrite set_chk_false.
+  pose proof G as [N CM]. pose proof W as (W1 & W2 & W3 & W4 & W5). destruct S1 as (S1 & S4 & S5).
+  pose proof (core_list _ _ _ _ Hc) as CL.
+  assert (LNK : m_pc t0 = MRLink -> m_isadd t0 = true /\ m_wrote t0 = true /\ reg_phase t0 = true).
+  { intros Hp. destruct (m_isadd t0) eqn:Ea.
+    - destruct I0 as (_ & _ & _ & X). rewrite Ea in X. destruct X as (_ & _ & _ & _ & _ & _ & _ & A8). rewrite Hp in A8.
+      unfold reg_phase. rewrite Hp. repeat split; apply A8.
+    - destruct (CI_chg_wrote _ _ I0 Ea) as [_ R]. unfold reg_phase in R. rewrite Hp in R. discriminate. }
+  split; [congruence|]. split; [congruence|]. split; [|split; [|split]].
+  - (* MW *)
+    unfold MW. split; [exact S1|]. split; [|split; [|split; [exact S4|exact S5]]].
+    + intros j Hj. rewrite N. destruct CL as [CL | (Hp & CL)]; rewrite CL in Hj.
+      * destruct (W2 j Hj). auto.
+      * destruct Hj as [<-|Hj]; [|destruct (W2 j Hj); auto].
+        destruct (LNK Hp) as (Ea & Hw & _). destruct (CI_wrote_claimed _ _ I0 Ea Hw). auto.
+    + destruct CL as [-> | (Hp & ->)]; [exact W3|]. constructor; [|exact W3].
+      destruct (LNK Hp) as (Ea & Hw & Hr). exact (U3 i t0 Hn Ea Hw Hr).
+  - apply Forall_upd; [|exact I1]. apply Forall_forall. intros x Hx. apply (CI_mono ms); [exact G|].
+    rewrite Forall_forall in F. apply F. exact Hx.
+  - (* a linker's counter is not on the list *)
+    intros j t Hj Ea Hw Hr. destruct (Nat.eq_dec i j) as [<-|Nij].
+    + rewrite (nth_error_upd_same _ _ _ _ Hn) in Hj. injection Hj as <-.
+      assert (Ea0 : m_isadd t0 = true) by congruence.
+      destruct (core_wrote_add _ _ _ _ Hc I0 Ea0) as [_ X]. destruct (X Hr Hw) as [(R0 & W0 & Lk)|(Cf & Ll)].
+      * rewrite E2. destruct CL as [-> | (Hp & _)]; [|rewrite (Lk Hp)]; exact (U3 i t0 Hn Ea0 W0 R0).
+      * rewrite E2, Ll. intros Hin. destruct (W2 _ Hin). congruence.
+    + rewrite nth_error_upd_other in Hj by exact Nij.
+      destruct CL as [-> | (Hp & ->)]; [exact (U3 j t Hj Ea Hw Hr)|].
+      intros [Hin|Hin]; [|exact (U3 j t Hj Ea Hw Hr Hin)].
+      destruct (LNK Hp) as (Ea0 & Hw0 & _). exact (U2 i j t0 t Hn Hj Nij Ea0 Ea Hw0 Hw Hin).
+  - (* one claimer per counter *)
+    assert (KEY : forall j tj, nth_error ts j = Some tj -> i <> j -> m_isadd t1 = true -> m_isadd tj = true ->
+                  m_wrote t1 = true -> m_wrote tj = true -> m_k t1 <> m_k tj).
+    { intros j tj Hj Nij Ea1 Eaj Hw1 Hwj. assert (Ea0 : m_isadd t0 = true) by congruence.
+      destruct (core_wrote_add _ _ _ _ Hc I0 Ea0) as [[X|(X1 & X2 & _)] _].
+      - rewrite E2. apply (U2 i j t0 tj Hn Hj Nij Ea0 Eaj); congruence.
+      - rewrite E2. intros Heq. rewrite Forall_forall in F.
+        destruct (CI_wrote_claimed ms tj (F tj (nth_error_In _ _ Hj)) Eaj Hwj). congruence. }
+    intros a b ta tb Ha Hb Nab Eaa Eab Hwa Hwb.
+    destruct (Nat.eq_dec i a) as [<-|Nia]; destruct (Nat.eq_dec i b) as [<-|Nib]; try congruence.
+    + rewrite (nth_error_upd_same _ _ _ _ Hn) in Ha. injection Ha as <-. rewrite nth_error_upd_other in Hb by exact Nib.
+      exact (KEY b tb Hb Nib Eaa Eab Hwa Hwb).
+    + rewrite (nth_error_upd_same _ _ _ _ Hn) in Hb. injection Hb as <-. rewrite nth_error_upd_other in Ha by exact Nia.
+      intros Heq. exact (KEY a ta Ha Nia Eab Eaa Hwb Hwa (eq_sym Heq)).
+    + rewrite nth_error_upd_other in Ha, Hb by assumption. exact (U2 a b ta tb Ha Hb Nab Eaa Eab Hwa Hwb).
+Qed.
+
+Lemma GI_run sched : forall st, GI st -> GI (mrun sched st).
+Proof. induction sched as [|i sched IH]; intros st G; [exact G|]. cbn [mrun fold_left]. apply IH. apply GI_step. exact G. Qed.
+
+(* ---- initial states ---- *)
+(* no lookup will extend the file: the file is not full, and every rotation
+   opens a file that has room (changerM NewFile); plus the shared part of the
+   control invariant: one c.next flag per counter, the list duplicate-free and
+   made of claimed counters of this file, one cell per file for every counter *)
+Definition nogrow (ms : mshared) (ts : list mthread) : Prop :=
+  MW ms /\ Forall (fun t => m_isadd t = false -> m_tgt t = NewFile) ts.
+
+Lemma init_CI ms t : mthread_init (nc ms) t -> (m_isadd t = false -> m_tgt t = NewFile) -> CI ms t.
+Proof.
+  intros [(k & n & Hk & Hn & ->)|(tg & ->)] Ht.
+  - unfold CI, adderM. msimp. rewrite upd_len, repeat_length. repeat (split; [reflexivity|]).
+    unfold CIadd. msimp. split; [exact Hk|]. split.
+    { intros j Hj. rewrite nth_upd_other by exact Hj. rewrite nth_repeat. destruct (Nat.ltb j (nc ms)); reflexivity. }
+    rewrite nth_upd_same by (rewrite repeat_length; exact Hk). cbn. repeat split; auto; discriminate.
+  - specialize (Ht eq_refl). cbn in Ht. subst tg.
+    unfold CI, changerM. msimp. rewrite repeat_length. repeat (split; [reflexivity|]).
+    unfold CIchg. msimp. repeat (split; [reflexivity|]). intros j Hj. rewrite nth_repeat.
+    apply Nat.ltb_lt in Hj. rewrite Hj. split; reflexivity.
+Qed.
+
+Lemma init_wrote nc0 t : mthread_init nc0 t -> m_wrote t = false.
+Proof. intros [(k & n & _ & _ & ->)|(tg & ->)]; reflexivity. Qed.
+
+Lemma init_GI ms ts : mgood ms ts -> nogrow ms ts -> GI (ms, ts).
+Proof.
+  intros (C & B & FT & _ & _) (W & FN). unfold GI. split; [exact C|]. split; [exact B|]. split; [exact W|].
+  split; [|split].
+  - rewrite Forall_forall in *. intros t Ht. apply init_CI; [apply FT; exact Ht | apply FN; exact Ht].
+  - intros j t Hj _ Hw. rewrite Forall_forall in FT. rewrite (init_wrote _ _ (FT t (nth_error_In _ _ Hj))) in Hw. discriminate.
+  - intros i j ti tj Hi _ _ _ _ Hw. rewrite Forall_forall in FT. rewrite (init_wrote _ _ (FT ti (nth_error_In _ _ Hi))) in Hw. discriminate.
+Qed.
+
+(* ---- no schedule sets a flag ---- *)
+Theorem multi_flags_clear ms0 ts0 sched : mgood ms0 ts0 -> nogrow ms0 ts0 ->
+  ms_chk (fst (mrun sched (ms0, ts0))) = false /\ ms_bad (fst (mrun sched (ms0, ts0))) = false.
+Proof.
+  intros G N. pose proof (GI_run sched _ (init_GI _ _ G N)) as X.
+  destruct (mrun sched (ms0, ts0)) as [ms ts]. destruct X as (C & B & _). auto.
+Qed.
+
+Theorem multi_control_invariant ms0 ts0 sched : mgood ms0 ts0 -> nogrow ms0 ts0 -> GI (mrun sched (ms0, ts0)).
+Proof. intros G N. apply GI_run. apply init_GI; assumption. Qed.
+
+(* ---- the multi theorems without hypotheses on the flags ---- *)
+Theorem multi_step_projects_nogrow ms0 ts0 sched k i : mgood ms0 ts0 -> nogrow ms0 ts0 ->
+  (k < length (ms_ctrs ms0))%nat ->
+  xstep (memn k (ms_list (fst (mrun sched (ms0, ts0))))) (sproj k (mrun sched (ms0, ts0)))
+        (sproj k (mstep (mrun sched (ms0, ts0)) i)).
+Proof.
+  intros G N Hk.
+  assert (E : mstep (mrun sched (ms0, ts0)) i = mrun (sched ++ [i]) (ms0, ts0)).
+  { unfold mrun. rewrite fold_left_app. reflexivity. }
+  destruct (multi_flags_clear ms0 ts0 (sched ++ [i]) G N) as [C B]. rewrite <- E in C, B.
+  apply mstep_projects; try assumption.
+  pose proof (mrun_frame sched (ms0, ts0)) as (L & _). cbn [fst] in L. rewrite L. exact Hk.
+Qed.
+
+Theorem multi_inv_nogrow ms0 ts0 sched k : mgood ms0 ts0 -> reg_init ms0 -> nogrow ms0 ts0 ->
+  (k < length (ms_ctrs ms0))%nat ->
+  Inv (total_k k ms0 ts0) (sproj k (mrun sched (ms0, ts0))) /\
+  Forall (fun t => done_ok t = true) (snd (mrun sched (ms0, ts0))).
+Proof. intros G R N Hk. destruct (multi_flags_clear ms0 ts0 sched G N) as [C B]. apply multi_inv; assumption. Qed.
+
+Theorem multi_upper_bound_nogrow ms0 ts0 sched k : mgood ms0 ts0 -> reg_init ms0 -> nogrow ms0 ts0 ->
+  let '(ms, ts) := mrun sched (ms0, ts0) in
+  (k < length (ms_ctrs ms0))%nat ->
+  persisted (proj k ms) + w_extra (c_word (getc ms k))
+  <= persisted (proj k ms0) + w_extra (c_word (getc ms0 k)) + (sumf unbegun (tsproj k ts0) - sumf unbegun (tsproj k ts)).
+Proof.
+  intros G R N. pose proof (multi_upper_bound ms0 ts0 sched k G R) as U.
+  destruct (multi_flags_clear ms0 ts0 sched G N) as [C B].
+  destruct (mrun sched (ms0, ts0)) as [ms ts]. cbn [fst] in C, B. auto.
+Qed.
+
+Theorem multi_exact_at_quiescence_nogrow ms0 ts0 sched k : mgood ms0 ts0 -> reg_init ms0 -> nogrow ms0 ts0 ->
+  let '(ms, ts) := mrun sched (ms0, ts0) in
+  (k < length (ms_ctrs ms0))%nat -> m_all_done ts = true -> c_sat (getc ms k) = false ->
+  persisted (proj k ms) + w_extra (c_word (getc ms k))
+  = persisted (proj k ms0) + w_extra (c_word (getc ms0 k)) + sumf unbegun (tsproj k ts0) /\
+  w_readers (c_word (getc ms k)) = 0.
+Proof.
+  intros G R N. pose proof (multi_exact_at_quiescence ms0 ts0 sched k G R) as U.
+  destruct (multi_flags_clear ms0 ts0 sched G N) as [C B].
+  destruct (mrun sched (ms0, ts0)) as [ms ts]. cbn [fst] in C, B. auto.
+Qed.
+
+Theorem multi_no_nil_deref_nogrow ms0 ts0 sched k : mgood ms0 ts0 -> reg_init ms0 -> nogrow ms0 ts0 ->
+  let '(ms, ts) := mrun sched (ms0, ts0) in
+  (k < length (ms_ctrs ms0))%nat -> Forall (fun u => crashed u = false) (tsproj k ts).
+Proof.
+  intros G R N. pose proof (multi_no_nil_deref ms0 ts0 sched k G R) as U.
+  destruct (multi_flags_clear ms0 ts0 sched G N) as [C B].
+  destruct (mrun sched (ms0, ts0)) as [ms ts]. cbn [fst] in C, B. auto.
+Qed.
